@@ -142,6 +142,8 @@ def gen_plan(seed, idx):
                 if prev:
                     a["alias_of"] = r.choice(prev)
                     k = "alias"
+            if i >= 1 and inplace and args[0].get("kind") == "masked" and e["args"][0] in PT.ARRAYS and r.chance(0.3):
+                k = "unmasked"     # the path only a masked in-place left-hand side has: make it common enough
             if k == "unmasked":
                 # right-hand side of unmasked length for a masked in-place left-hand side
                 if i >= 1 and inplace and args[0].get("kind") == "masked" and e["args"][0] in PT.ARRAYS:
